@@ -17,7 +17,8 @@ INF = float('inf')
 DTYPES = {'bool': 'DBool', 'int8': 'DInt8', 'int16': 'DInt16', 'int32': 'DInt32', 'int64': 'DInt64',
           'uint8': 'DUInt8', 'uint16': 'DUInt16', 'uint32': 'DUInt32', 'uint64': 'DUInt64',
           'float16': 'DFloat16', 'float32': 'DFloat32', 'float64': 'DFloat64',
-          'complex64': 'DComplex64', 'complex128': 'DComplex128', 'U': 'DStr', 'O': 'DObj'}
+          'complex64': 'DComplex64', 'complex128': 'DComplex128', 'U': 'DStr', 'O': 'DObj',
+          'float128': 'DFloat128', 'complex256': 'DComplex256'}
 
 
 def dtype_name(dt):
@@ -352,7 +353,7 @@ def describe(o, ctx):
 VALS = [0.0, 1.0, 2.0, 3.0, 0.5, -1.0, -0.5, 4.0, 1.5, -3.0]
 EXPOS = [2.0, 2.0, 2.0, 1.0, INF, 1.5]
 NUM_DTYPES = ['float64', 'float64', 'float64', 'float32', 'complex128', 'complex64', 'int64', 'int32', 'uint8',
-              'float16', 'int8', 'int16', 'uint16', 'uint32', 'uint64']
+              'float16', 'int8', 'int16', 'uint16', 'uint32', 'uint64', 'float16', 'float128', 'complex256']
 NONNUM_DTYPES = ['bool', 'U', 'O']
 
 
@@ -472,7 +473,7 @@ def gen_space(rng, depth, field=None):
         t = gen_tsp(rng, shape=[len(g) for g in p[1]])
     if field is not None:
         ok = {'real': [d for d in NUM_DTYPES if not d.startswith('complex')],
-              'complex': ['complex128', 'complex64']}[field]
+              'complex': ['complex128', 'complex64', 'complex256']}[field]
         if t[1] not in ok:
             dt = rng.choice(ok)
             w = t[2] if (t[2][0] != 'array' or dt in ('float64', 'complex128')) else ('const', 'KNpy', 1.0, 2.0)
@@ -1084,56 +1085,119 @@ def gen_nested_prod(rng):
     return ('prod', tuple(inner), w, fld)
 
 
+def gen_dop(rng, D, chain=False):
+    """One derived-space operation applicable to a space with descriptor D:
+    (Coq term of type dop, function taking the real object, label)."""
+    r = rng.random()
+    if chain:
+        r = 0.5 + r / 2 if rng.random() < 0.6 else r      # chains: mostly dtype derivations (they use the caches)
+    if D[0] == 'prod' and r < 0.6:
+        idx = gen_pidx(rng, len(D[1]))
+        return '(DGetitem %s)' % coq_pidx(idx), (lambda o: o[idx]), ('getitem', repr(idx))
+    if D[0] == 'tensor' and r < 0.4:
+        nd = len(D[1][0])
+        k = rng.random()
+        idx = (gen_int_index(rng, nd) if k < 0.4 else gen_slice(rng, nd) if k < 0.7 else
+               [rng.randrange(-nd, nd) if nd else 0 for _ in range(rng.choice([0, 1, 2, 3]))])
+        return '(DByaxis %s)' % coq_aidx(idx), (lambda o: o.byaxis[idx]), ('byaxis', repr(idx))
+    if D[0] == 'discr' and r < 0.45:
+        nd = len(D[1][1])
+        k = rng.random()
+        idx = (gen_int_index(rng, nd) if k < 0.35 else gen_slice(rng, nd) if k < 0.7 else
+               [rng.randrange(-nd, nd) if nd else 0 for _ in range(rng.choice([0, 1, 2, 3]))])
+        return '(DByaxisIn %s)' % coq_aidx(idx), (lambda o: o.byaxis_in[idx]), ('byaxis_in', repr(idx))
+    if r < 0.75:
+        dt = rng.choice(list(DTYPES) + ['float64', 'float32', 'complex128', 'int64', 'float16', 'complex64'])
+        npdt = {'U': 'U1', 'O': object}.get(dt, dt)
+        return '(DAstype %s)' % DTYPES[dt], (lambda o: o.astype(npdt)), ('astype', dt)
+    if r < 0.88:
+        return 'DReal', (lambda o: o.real_space), ('real_space',)
+    return 'DComplex', (lambda o: o.complex_space), ('complex_space',)
+
+
 def derived_cases(rng, tier, dv):
+    """Chains of derivations: every step is applied either to the previous result or again to the
+    SOURCE object, so that whatever one derivation caches on an object is read by the next
+    (the model has no cache: it must be transparent)."""
     cs = C.CaseSet('derived', ['C20.Syntax', 'C20.Model', 'C20.Derived', 'C20.Corr'], 'checkD', 'caseD')
-    n = 500 if tier == 'quick' else 3000
+    n = 600 if tier == 'quick' else 3600
     ctx = Ctx()
     dvs = coq_dvariants(dv)
-    alldt = list(DTYPES)
     for i in range(n):
         r = rng.random()
-        S = gen_nested_prod(rng) if r < 0.25 else gen_prod(rng, 2) if r < 0.5 else gen_space(rng, 2)
+        S = gen_nested_prod(rng) if r < 0.2 else gen_prod(rng, 2) if r < 0.45 else gen_space(rng, 2)
         try:
             oS = build(S, ctx)
         except Exception:
             continue
-        r = rng.random()
-        if S[0] == 'prod' and r < 0.6:
-            idx = gen_pidx(rng, len(S[1]))
-            op, f = '(DGetitem %s)' % coq_pidx(idx), (lambda: oS[idx])
-            what = ('getitem', repr(idx))
-        elif S[0] == 'tensor' and r < 0.4:
-            nd = len(S[1][0])
-            k = rng.random()
-            idx = (gen_int_index(rng, nd) if k < 0.4 else gen_slice(rng, nd) if k < 0.7 else
-                   [rng.randrange(-nd, nd) if nd else 0 for _ in range(rng.choice([0, 1, 2, 3]))])
-            op, f = '(DByaxis %s)' % coq_aidx(idx), (lambda: oS.byaxis[idx])
-            what = ('byaxis', repr(idx))
-        elif S[0] == 'discr' and r < 0.45:
-            nd = len(S[1][1])
-            k = rng.random()
-            idx = (gen_int_index(rng, nd) if k < 0.35 else gen_slice(rng, nd) if k < 0.7 else
-                   [rng.randrange(-nd, nd) if nd else 0 for _ in range(rng.choice([0, 1, 2, 3]))])
-            op, f = '(DByaxisIn %s)' % coq_aidx(idx), (lambda: oS.byaxis_in[idx])
-            what = ('byaxis_in', repr(idx))
-        elif r < 0.75:
-            dt = rng.choice(alldt + ['float64', 'float32', 'complex128', 'int64'])
-            npdt = {'U': 'U1', 'O': object}.get(dt, dt)
-            op, f = '(DAstype %s)' % DTYPES[dt], (lambda: oS.astype(npdt))
-            what = ('astype', dt)
-        elif r < 0.88:
-            op, f = 'DReal', (lambda: oS.real_space)
-            what = ('real_space',)
-        else:
-            op, f = 'DComplex', (lambda: oS.complex_space)
-            what = ('complex_space',)
-        try:
-            out = obs_res(f, ctx)
-        except Exception as e:
-            out = 'ErrType'   # anything else shows up as a mismatch
-            what = what + ('unexpected %s' % type(e).__name__,)
-        term = '{| d_dv := %s; d_a := %s; d_op := %s; d_out := %s |}' % (dvs, coq_obj(S), op, out)
-        cs.add(term, {'S': repr(S)[:400], 'op': what, 'out': out[:200]}, (repr(S), what))
+        nsteps = 1 if rng.random() < 0.4 else rng.choice([2, 2, 3, 3, 4])
+        steps, whats = [], []
+        cur, curD, out = oS, S, None
+        for k in range(nsteps):
+            from_src = k > 0 and rng.random() < 0.35
+            tgt, tgtD = (oS, S) if from_src else (cur, curD)
+            op, f, what = gen_dop(rng, tgtD, chain=nsteps > 1)
+            steps.append('(%s, %s)' % (C.b(from_src), op))
+            whats.append(('src' if from_src else 'cur',) + what)
+            try:
+                cur = f(tgt)
+                curD = describe(cur, ctx)
+                out = '(Ok %s)' % coq_obj(curD)
+            except ValueError:
+                out = 'ErrValue'
+            except IndexError:
+                out = 'ErrIndex'
+            except TypeError:
+                out = 'ErrType'
+            except Exception as e:
+                out = 'ErrType'
+                whats.append('unexpected %s' % type(e).__name__)
+            if not out.startswith('(Ok'):
+                break
+        term = '{| d_dv := %s; d_a := %s; d_steps := %s; d_out := %s |}' % (dvs, coq_obj(S), C.lst(steps), out)
+        cs.add(term, {'S': repr(S)[:400], 'steps': whats, 'out': out[:200]}, (repr(S), repr(whats)))
+    # the full dtype table x space kinds x counterpart chains (caches of real/complex spaces)
+    ALLDT = [d for d in DTYPES if d not in ('O',)]
+    PATTERNS = [[(False, 'C'), (False, 'R')], [(False, 'R'), (False, 'C')], [(False, 'C'), (True, 'R'), (False, 'C')],
+                [(False, 'C'), (False, 'R'), (False, 'C'), (False, 'R')], [(False, 'R'), (True, 'C'), (True, 'R')],
+                [(False, 'C'), (False, 'C')], [(False, 'A'), (False, 'R')], [(False, 'A'), (False, 'C'), (False, 'R')]]
+    for dt in ALLDT:
+        for kind in ('tensor', 'discr', 'prod'):
+            pats = PATTERNS if tier != 'quick' else rng.sample(PATTERNS, 3)
+            for pat in pats:
+                w = ('const', 'KNpy', 1.0, 2.0) if dt in NONNUM_DTYPES or rng.random() < 0.5 else ('const', 'KNpy', 2.0, 1.0)
+                t = ((2,), dt, w)
+                S = (('tensor', t) if kind == 'tensor' else ('discr', (((0.0, 1.0),), ((0.25, 0.75),)), t) if kind == 'discr'
+                     else ('prod', (('tensor', t), ('tensor', t)), ('const', 'KPs', 1.0, 2.0), field_of(('tensor', t))))
+                try:
+                    oS = build(S, ctx)
+                except Exception:
+                    continue
+                steps, whats, cur, out = [], [], oS, None
+                for from_src, o in pat:
+                    tgt = oS if from_src else cur
+                    if o == 'A':
+                        adt = rng.choice(['float16', 'float32', 'float64', 'float128', 'complex64', 'complex128', 'complex256', 'int32'])
+                        op, f = '(DAstype %s)' % DTYPES[adt], (lambda x, adt=adt: x.astype(adt))
+                    elif o == 'R':
+                        op, f = 'DReal', (lambda x: x.real_space)
+                    else:
+                        op, f = 'DComplex', (lambda x: x.complex_space)
+                    steps.append('(%s, %s)' % (C.b(from_src), op))
+                    whats.append(('src' if from_src else 'cur', op))
+                    try:
+                        cur = f(tgt)
+                        out = '(Ok %s)' % coq_obj(describe(cur, ctx))
+                    except ValueError:
+                        out = 'ErrValue'
+                    except IndexError:
+                        out = 'ErrIndex'
+                    except Exception:
+                        out = 'ErrType'
+                    if not out.startswith('(Ok'):
+                        break
+                term = '{| d_dv := %s; d_a := %s; d_steps := %s; d_out := %s |}' % (dvs, coq_obj(S), C.lst(steps), out)
+                cs.add(term, {'S': repr(S)[:300], 'steps': whats, 'out': out[:200]}, (repr(S), repr(whats)))
     return cs
 
 
@@ -1424,7 +1488,7 @@ def correspondence(rng, tier):
 
 # --------------------------------------------------------------------- probes (property oracles, no model)
 _RP_HEAD = ("import sys, numpy as np, warnings\nwarnings.simplefilter('ignore')\nsys.path.insert(0, %r)\n"
-            "import odl\nfrom harness import c20 as H\nctx = H.Ctx()\n" % C.VERIF)
+            "import odl\nfrom harness import c20 as H\nctx = H.Ctx()\ninf = float('inf')\n" % C.VERIF)
 
 
 def intv_ndims(d, acc=None):
@@ -2088,6 +2152,81 @@ def probe_byaxis_in(rng, tier, out):
         out.append(C.Probe(ok, key, 'byaxis_in[idx] discretizes the selected axes, same dtype, cell-volume weighting', rp))
 
 
+
+def probe_chains(rng, tier, out):
+    """Derived spaces depend only on the VALUE of the space they are derived from: a derivation on an
+    object that other derivations have already been applied to (caches!) gives a space equal -- same
+    class, shape, dtype, weighting -- to the derivation on a freshly built equal object.  Also the dtype
+    rules of the counterparts over the full dtype table: complex_space.real_space has the real dtype of
+    the complex dtype (NumPy's), real_space.complex_space the complex dtype, x.real / x.imag live there."""
+    import odl
+    ctx = Ctx()
+    n = 120 if tier == 'quick' else 700
+    for _ in range(n):
+        S = gen_space(rng, 1) if rng.random() < 0.7 else gen_prod(rng, 1)
+        try:
+            oS = build(S, ctx)
+        except Exception:
+            continue
+        ops = [gen_dop(rng, S, chain=True) for _ in range(rng.choice([2, 3, 4]))]
+        # only dtype derivations are applicable to every space kind
+        ops = [o for o in ops if o[2][0] in ('astype', 'real_space', 'complex_space')]
+        if len(ops) < 2:
+            continue
+        labels = [o[2] for o in ops]
+        rp = (_RP_HEAD + "S = %r\nlabels = %r\n"
+              "def ap(o, l):\n    return o.astype({'U': 'U1'}.get(l[1], l[1])) if l[0] == 'astype' else getattr(o, l[0])\n"
+              "def same(a, b):\n    return H.describe(a, ctx) == H.describe(b, ctx)\n"
+              "used = H.build(S, ctx); ok = True; observed = []\n"
+              "for i, l in enumerate(labels):\n"
+              "    for m in labels[:i]:\n"
+              "        try: ap(used, m)\n        except Exception: pass\n"
+              "    try: r1 = ap(used, l)\n    except Exception as e: r1 = type(e)\n"
+              "    try: r2 = ap(H.build(S, ctx), l)\n    except Exception as e: r2 = type(e)\n"
+              "    good = (r1 is r2) if isinstance(r1, type) or isinstance(r2, type) else same(r1, r2)\n"
+              "    observed.append((l, good)); ok = ok and good\n"
+              "    if not isinstance(r1, type) and not isinstance(r2, type):\n"
+              "        for m in labels:\n"
+              "            try: q1 = ap(r1, m)\n            except Exception as e: q1 = type(e)\n"
+              "            try: q2 = ap(r2, m)\n            except Exception as e: q2 = type(e)\n"
+              "            g2 = (q1 is q2) if isinstance(q1, type) or isinstance(q2, type) else same(q1, q2)\n"
+              "            observed.append((l, m, g2)); ok = ok and g2\n" % (S, labels))
+        env = {}
+        try:
+            exec(rp, env)
+            ok = bool(env['ok'])
+        except Exception:
+            ok = False
+        out.append(C.Probe(ok, 'derived-chain-cache-%s' % S[0],
+                           'derivations after other derivations equal derivations on a fresh equal space (%s)' % S[0], rp))
+    # counterpart dtype rules over the full table
+    for name in [d for d in DTYPES if d not in ('O', 'U', 'bool')]:
+        for kind in ('tensor', 'discr', 'prod'):
+            mk = {'tensor': "odl.tensor_space(3, dtype=%r)" % name,
+                  'discr': "odl.uniform_discr(0, 1, 3, dtype=%r)" % name,
+                  'prod': "odl.ProductSpace(odl.tensor_space(3, dtype=%r), 2)" % name}[kind]
+            rp = ("import odl, numpy as np\nS = %s\ndt = np.dtype(%r)\nok = True; observed = []\n"
+                  "def leaf(s):\n    return s[0] if isinstance(s, odl.ProductSpace) else s\n"
+                  "if dt.kind == 'c':\n    C_ = S\nelse:\n"
+                  "    try: C_ = S.complex_space\n    except ValueError: C_ = None     # no complex counterpart of an integer type\n"
+                  "if C_ is not None:\n"
+                  "    cdt = leaf(C_).dtype; rdt = np.empty(0, cdt).real.dtype\n"
+                  "    observed.append((str(cdt), str(leaf(C_.real_space).dtype), str(rdt)))\n"
+                  "    ok = ok and cdt.kind == 'c' and leaf(C_.real_space).dtype == rdt and leaf(C_.real_space.complex_space).dtype == cdt\n"
+                  "    x = C_.one()\n"
+                  "    ok = ok and leaf(x.real.space).dtype == rdt and leaf(x.imag.space).dtype == rdt\n"
+                  "    ok = ok and leaf(C_.real_space).dtype == rdt      # asked again, after x.real used the cache\n"
+                  "if dt.kind != 'c':\n    ok = ok and leaf(S.real_space).dtype == dt\n" % (mk, name))
+            env = {}
+            try:
+                exec(rp, env)
+                ok = bool(env['ok'])
+            except Exception:
+                ok = False
+            out.append(C.Probe(ok, 'counterpart-dtype-%s-%s' % (kind, name),
+                               'real/complex counterparts of %s (%s): dtypes follow the NumPy real/complex pairing' % (name, kind), rp))
+
+
 def probes(rng, tier):
     import warnings
     warnings.simplefilter('ignore')
@@ -2099,6 +2238,7 @@ def probes(rng, tier):
     probe_derived(rng, tier, out)
     probe_indexing(rng, tier, out)
     probe_byaxis_in(rng, tier, out)
+    probe_chains(rng, tier, out)
     return out
 
 
